@@ -149,7 +149,8 @@ def run_queries(ctx):
                     if w.numel() and ctx.rng.random() < 0.5:
                         w.view(-1)[ctx.rng.randrange(w.numel())] = math.inf
                     g.factors[el.name].weights = PatternedTensor(w, default=-math.inf)
-            if name in ('real', 'log') and ctx.rng.random() < 0.5:
+            if name in ('real', 'log', 'viterbi') and ctx.rng.random() < 0.5:
+                # leaves of the caller's autograd graph (for the Viterbi grammar too: viterbi() reads them, it must not detach them in place)
                 for el in info['TL']:
                     g.factors[el.name].weights.physical.requires_grad_(True)
             grammars[name] = g
